@@ -15,25 +15,51 @@ pub enum Plan {
     Push { vi: usize, victim: u64, target_bp: i64, steps_left: u32 },
     AlignOracle { vi: usize },
     Liq { vi: usize, victim: u64, first: bool },
+    /// open `frac_ppm` of the quote reserve as notional; `high` = close to the maximum leverage
+    OpenFrac { vi: usize, trader: u64, long: bool, frac_ppm: u128, high: bool },
+    /// the trader closes his position (profit is paid out of the vault)
+    CloseBy { vi: usize, trader: u64 },
+    /// the vAMM owner closes the vAMM
+    CloseVamm { vi: usize },
+    /// the insurance fund owner shuts all vAMMs down
+    Shutdown,
+}
+
+#[derive(Clone, Copy, Debug, PartialEq)]
+pub enum Mode {
+    World,
+    /// favour transactions with rich message trees
+    Fault,
+    /// only kinds that exist for both collaterals; generated from the cw20 world
+    Twin,
 }
 
 pub struct GenCtx {
     pub plan: VecDeque<Plan>,
     pub scenario_at: Option<u64>,
+    /// 0 = liquidation campaign, 1 = pump / take profit / liquidate the losers
+    pub scenario_kind: u64,
+    pub shutdown_at: Option<u64>,
     pub last_plan: Option<Plan>,
+    pub mode: Mode,
 }
 
 impl GenCtx {
-    pub fn new(r: &mut Rng, ntx: u64) -> Self {
-        let scenario_at = if r.chance(35, 100) { Some(ntx / 2) } else { None };
-        GenCtx { plan: VecDeque::new(), scenario_at, last_plan: None }
+    pub fn new(r: &mut Rng, ntx: u64, mode: Mode) -> Self {
+        let p = if mode == Mode::Fault { 60 } else { 40 };
+        let scenario_at = if r.chance(p, 100) { Some(ntx / 2) } else { None };
+        let scenario_kind = if r.chance(45, 100) { 1 } else { 0 };
+        let shutdown_at = if r.chance(15, 100) { Some(ntx / 3) } else { None };
+        GenCtx { plan: VecDeque::new(), scenario_at, scenario_kind, shutdown_at, last_plan: None, mode }
     }
-    /// a failed preparatory step ends the liquidation campaign
+    /// a failed preparatory step ends the campaign
     pub fn feedback(&mut self, _tx: &Tx, res: &TxResult) {
         if let Some(p) = self.last_plan.take() {
             if !res.ok {
                 match p {
-                    Plan::VictimOpen { .. } | Plan::Push { .. } => self.plan.clear(),
+                    Plan::VictimOpen { .. } | Plan::Push { .. } | Plan::OpenFrac { .. } | Plan::CloseBy { .. } | Plan::CloseVamm { .. } => {
+                        self.plan.clear()
+                    }
                     _ => {}
                 }
             }
@@ -531,7 +557,108 @@ fn realize(w: &World, r: &mut Rng, g: &mut GenCtx, plan: &Plan, vis: &[VInfo], p
             dr.min_dt = if *first { r.range(900, 1500) } else { r.range(5, 30) };
             Some(dr)
         }
+        Plan::OpenFrac { vi, trader, long, frac_ppm, high } => {
+            let v = vis.iter().find(|x| x.idx == *vi)?;
+            let mut frac = *frac_ppm;
+            if v.fluct != 0 {
+                frac = frac.min(v.fluct * 1_000_000 / d / 3).max(1000);
+            }
+            let notional = v.q * frac / 1_000_000;
+            let strict = ec.maintenance_margin_ratio < ec.initial_margin_ratio;
+            let lev = if *high {
+                if strict { maxlev } else { (maxlev * 97 / 100).max(d) }
+            } else {
+                (2 * d).min(maxlev)
+            };
+            let bal = w.balance_id(*trader);
+            let fee_mult = d + mul_div(lev, v.toll + v.spread, d);
+            let cap = mul_div(bal, d * 8 / 10, fee_mult.max(1));
+            let margin = mul_div(notional, d, lev).max(1000).min(cap.max(1));
+            let side = if *long { 0 } else { 1 };
+            let pos = ps.iter().find(|pp| pp.v == v.id && pp.t == *trader);
+            let mut dr = draft(*trader, Msg::Open { v: v.id, side, margin, lev, lim: 0 });
+            if w.cfg.native {
+                dr.funds = open_funds(w, Some(v), pos, side, margin, lev);
+            }
+            dr.min_blocks = 1;
+            dr.min_dt = 6;
+            Some(dr)
+        }
+        Plan::CloseBy { vi, trader } => {
+            let v = vis.iter().find(|x| x.idx == *vi)?;
+            ps.iter().find(|p| p.v == v.id && p.t == *trader)?;
+            let mut dr = draft(*trader, Msg::Close { v: v.id, lim: 0 });
+            dr.min_blocks = 1;
+            dr.min_dt = 6;
+            Some(dr)
+        }
+        Plan::CloseVamm { vi } => {
+            let v = vis.iter().find(|x| x.idx == *vi)?;
+            if !v.open {
+                return None;
+            }
+            Some(draft(w.vamm_owner(&v.addr), Msg::VSetOpen { v: v.id, uopen: 0 }))
+        }
+        Plan::Shutdown => Some(draft(w.if_owner(), Msg::IfShutdown)),
     }
+}
+
+/// Pump (or dump) scenario: P opens a big low-leverage position, X and Y pile in at high leverage in the
+/// same direction, P takes his profit out of the vault, X and Y are then liquidated with a thin vault.
+fn start_pump(w: &World, r: &mut Rng, g: &mut GenCtx, vis: &[VInfo], ps: &[PosInfo]) -> bool {
+    if w.engine_paused() {
+        return false;
+    }
+    let mut usable: Vec<&VInfo> = vis.iter().filter(|v| v.usable()).collect();
+    if usable.is_empty() {
+        return false;
+    }
+    // prefer a pool without per-block fluctuation limit
+    usable.sort_by_key(|v| (v.fluct != 0) as u8);
+    let v: &VInfo = if usable[0].fluct == 0 {
+        let free: Vec<&VInfo> = usable.iter().cloned().filter(|v| v.fluct == 0).collect();
+        free[r.below(free.len() as u64) as usize]
+    } else {
+        usable[r.below(usable.len() as u64) as usize]
+    };
+    let mut free: Vec<u64> = TRADERS.iter().cloned().filter(|t| !ps.iter().any(|p| p.v == v.id && p.t == *t)).collect();
+    if free.len() < 3 {
+        return false;
+    }
+    // shuffle deterministically
+    for i in (1..free.len()).rev() {
+        let j = r.below(i as u64 + 1) as usize;
+        free.swap(i, j);
+    }
+    let long = r.chance(1, 2);
+    let (p, x, y) = (free[0], free[1], free[2]);
+    g.plan.push_back(Plan::OpenFrac { vi: v.idx, trader: p, long, frac_ppm: r.range(80_000, 150_000) as u128, high: false });
+    g.plan.push_back(Plan::OpenFrac { vi: v.idx, trader: x, long, frac_ppm: r.range(80_000, 200_000) as u128, high: true });
+    g.plan.push_back(Plan::OpenFrac { vi: v.idx, trader: y, long, frac_ppm: r.range(80_000, 200_000) as u128, high: true });
+    g.plan.push_back(Plan::CloseBy { vi: v.idx, trader: p });
+    g.plan.push_back(Plan::AlignOracle { vi: v.idx });
+    g.plan.push_back(Plan::Liq { vi: v.idx, victim: y, first: true });
+    g.plan.push_back(Plan::Liq { vi: v.idx, victim: x, first: false });
+    true
+}
+
+/// `ifshutdown` by the owner while one registered vAMM is already closed and another is open
+fn start_shutdown(r: &mut Rng, g: &mut GenCtx, vis: &[VInfo]) -> bool {
+    let reg: Vec<&VInfo> = vis.iter().filter(|v| v.registered).collect();
+    let open: Vec<&&VInfo> = reg.iter().filter(|v| v.open).collect();
+    let closed = reg.len() - open.len();
+    if reg.len() < 2 || open.is_empty() {
+        return false;
+    }
+    if closed == 0 {
+        if open.len() < 2 {
+            return false;
+        }
+        let c = open[r.below(open.len() as u64) as usize];
+        g.plan.push_back(Plan::CloseVamm { vi: c.idx });
+    }
+    g.plan.push_back(Plan::Shutdown);
+    true
 }
 
 fn gen_liq(w: &World, r: &mut Rng, g: &mut GenCtx, vis: &[VInfo], ps: &[PosInfo]) -> Draft {
@@ -615,7 +742,7 @@ fn some_account(r: &mut Rng) -> u64 {
     *r.pick(&[NEWOWNER, OWNER, STRANGER, NEWOWNER, 0])
 }
 
-fn gen_admin(w: &World, r: &mut Rng, vis: &[VInfo]) -> Draft {
+fn gen_admin(w: &World, r: &mut Rng, vis: &[VInfo], mode: Mode) -> Draft {
     let d = w.cfg.d;
     let legit = r.chance(62, 100);
     let ec = w.engine_config();
@@ -764,21 +891,40 @@ fn gen_admin(w: &World, r: &mut Rng, vis: &[VInfo]) -> Draft {
         }
         80..=82 => draft(who(r, w.if_owner()), Msg::IfOwner { new: some_account(r) }),
         83..=86 => {
-            let tok = if w.token.is_some() { *r.pick(&[0u64, 5]) } else { 0 };
+            let tok = if mode == Mode::Twin { 5 } else if w.token.is_some() { *r.pick(&[0u64, 5]) } else { 0 };
             draft(who(r, w.fp_owner()), Msg::FpAdd { tok })
         }
         87..=88 => {
-            let tok = if w.token.is_some() { *r.pick(&[0u64, 5]) } else { 0 };
+            let tok = if mode == Mode::Twin { 5 } else if w.token.is_some() { *r.pick(&[0u64, 5]) } else { 0 };
             draft(who(r, w.fp_owner()), Msg::FpRm { tok })
         }
         89..=93 => {
-            let tok = if w.token.is_some() { *r.pick(&[5u64, 5, 5, 0]) } else { 0 };
+            let tok = if mode == Mode::Twin { 5 } else if w.token.is_some() { *r.pick(&[5u64, 5, 5, 0]) } else { 0 };
             let bal = w.balance(w.feepool.as_str());
             let amt = *r.pick(&[0, 1, bal, bal + 1, bal / 2, d]);
             draft(who(r, w.fp_owner()), Msg::FpSend { tok, amt, to: *r.pick(&[OWNER, NEWOWNER, 101, STRANGER, 0]) })
         }
         94..=96 => draft(who(r, w.fp_owner()), Msg::FpOwner { new: some_account(r) }),
         _ => draft(who(r, w.feed_owner()), Msg::FdOwner { new: some_account(r) }),
+    }
+}
+
+/// insurance fund / fee pool calls that dispatch sub-messages, sent by the rightful caller
+fn gen_tree_admin(w: &World, r: &mut Rng) -> Draft {
+    let d = w.cfg.d;
+    let tok = if w.token.is_some() { 5 } else { 0 };
+    match r.below(10) {
+        0..=1 => draft(w.if_owner(), Msg::IfShutdown),
+        2..=5 => {
+            let bal = w.balance(w.ifund.as_str());
+            let amt = *r.pick(&[1, d, bal / 2, bal / 10 + 1]);
+            draft(ENGINE, Msg::IfWithdraw { amt })
+        }
+        _ => {
+            let bal = w.balance(w.feepool.as_str());
+            let amt = *r.pick(&[1, bal, bal / 2 + 1]);
+            draft(w.fp_owner(), Msg::FpSend { tok, amt, to: *r.pick(&[OWNER, NEWOWNER, 101]) })
+        }
     }
 }
 
@@ -845,9 +991,18 @@ pub fn gen_step(w: &World, r: &mut Rng, g: &mut GenCtx, k: u64, stats: &mut Stat
     g.last_plan = None;
 
     let mut dr: Option<Draft> = None;
+    if Some(k) == g.shutdown_at && g.plan.is_empty() {
+        let started = start_shutdown(r, g, &vis);
+        stats.count("campaign", if started { "shutdown_started" } else { "shutdown_not_applicable" });
+    }
     if Some(k) == g.scenario_at && g.plan.is_empty() {
-        let started = start_campaign(w, r, g, &vis, &ps, None);
-        stats.count("campaign", if started { "started" } else { "not_applicable" });
+        if g.scenario_kind == 1 {
+            let started = start_pump(w, r, g, &vis, &ps);
+            stats.count("campaign", if started { "pump_started" } else { "pump_not_applicable" });
+        } else {
+            let started = start_campaign(w, r, g, &vis, &ps, None);
+            stats.count("campaign", if started { "started" } else { "not_applicable" });
+        }
     }
     while let Some(pl) = g.plan.pop_front() {
         if let Some(d) = realize(w, r, g, &pl, &vis, &ps) {
@@ -856,6 +1011,10 @@ pub fn gen_step(w: &World, r: &mut Rng, g: &mut GenCtx, k: u64, stats: &mut Stat
                 Plan::Push { .. } => "push",
                 Plan::AlignOracle { .. } => "align_oracle",
                 Plan::Liq { .. } => "liq",
+                Plan::OpenFrac { .. } => "open_frac",
+                Plan::CloseBy { .. } => "close_by",
+                Plan::CloseVamm { .. } => "close_vamm",
+                Plan::Shutdown => "shutdown",
             });
             g.last_plan = Some(pl);
             dr = Some(d);
@@ -870,9 +1029,28 @@ pub fn gen_step(w: &World, r: &mut Rng, g: &mut GenCtx, k: u64, stats: &mut Stat
         None => {
             let have = !ps.is_empty();
             let c = r.below(100);
+            // fault mode: more of the transactions with sub-messages, fewer plain admin calls
+            let c = if g.mode == Mode::Fault {
+                match c {
+                    0..=33 => 0,         // open
+                    34..=47 => 35,       // close
+                    48..=59 => 45,       // deposit / withdraw
+                    60..=71 => 55,       // liquidate
+                    72..=80 => 65,       // pay funding
+                    81..=86 => 71,       // oracle
+                    87..=93 => 100,      // insurance fund / fee pool calls with message trees
+                    94..=96 => 77,       // admin
+                    _ => 0,
+                }
+            } else if g.mode == Mode::Twin && (87..=89).contains(&c) {
+                0
+            } else {
+                c
+            };
             // without positions most position-dependent picks become opens
             let c = if !have && (35..65).contains(&c) && r.chance(85, 100) { 0 } else { c };
             match c {
+                100 => gen_tree_admin(w, r),
                 0..=34 => gen_open(w, r, &vis, &ps),
                 35..=44 => {
                     if have {
@@ -907,7 +1085,7 @@ pub fn gen_step(w: &World, r: &mut Rng, g: &mut GenCtx, k: u64, stats: &mut Stat
                 }
                 65..=70 => gen_payfunding(w, r, &vis, now + dt),
                 71..=76 => gen_oracle(w, r, &vis, now + dt),
-                77..=86 => gen_admin(w, r, &vis),
+                77..=86 => gen_admin(w, r, &vis, g.mode),
                 87..=89 => gen_house(w, r),
                 90..=91 => gen_direct(w, r, &vis),
                 _ => gen_open(w, r, &vis, &ps),
@@ -929,5 +1107,5 @@ pub fn gen_step(w: &World, r: &mut Rng, g: &mut GenCtx, k: u64, stats: &mut Stat
     };
     let funds = if w.cfg.native { dr.funds } else { 0 };
     let extra = if w.cfg.native { dr.extra } else { false };
-    Tx { k, snd: dr.snd, funds, extra, height, time, msg }
+    Tx { k, snd: dr.snd, funds, extra, height, time, msg, fault: None }
 }
